@@ -55,9 +55,9 @@ def confirm(src, sid, prop):
     dst = os.path.join(SEEDED, sid)
     tmp, root = scratch_repo()
     try:
-        work = os.path.join(root, "seeded_demo")
+        work = os.path.join(root, os.path.basename(os.path.normpath(src)))
         shutil.copytree(src, work)
-        demo_rel = os.path.join("seeded_demo", "demo.py")
+        demo_rel = os.path.join(os.path.basename(os.path.normpath(src)), "demo.py")
         rc0, out0 = run_demo(root, demo_rel)
         ok, msg = apply_patch(root, os.path.join(src, "patch.diff"))
         if not ok:
@@ -100,9 +100,9 @@ def confirm_refactor(src, sid):
     dst = os.path.join(ROOT, "refactorings", sid)
     tmp, root = scratch_repo()
     try:
-        work = os.path.join(root, "seeded_demo")
+        work = os.path.join(root, os.path.basename(os.path.normpath(src)))
         shutil.copytree(src, work)
-        demo_rel = os.path.join("seeded_demo", "demo.py")
+        demo_rel = os.path.join(os.path.basename(os.path.normpath(src)), "demo.py")
         rc0, out0 = run_demo(root, demo_rel) if os.path.exists(os.path.join(src, "demo.py")) else (0, "")
         ok, msg = apply_patch(root, os.path.join(src, "patch.diff"))
         if not ok:
